@@ -18,6 +18,10 @@ using namespace c14;
 extern "C" ssize_t __wrap_read(int fd, void* buf, size_t n) {
   WrapPlan& p = plan();
   if (!p.active || fd != p.fd) return __real_read(fd, buf, n);
+  if (p.fail_now()) {
+    errno = p.fail_errno; // an interrupted/failed read: nothing is consumed from the source
+    return -1;
+  }
   uint64_t lim = p.lim.next();
   size_t req = std::min<uint64_t>(n, lim);
   if (p.eof_after != UINT64_MAX) {
@@ -39,6 +43,10 @@ extern "C" ssize_t __wrap_read(int fd, void* buf, size_t n) {
 extern "C" ssize_t __wrap_pread(int fd, void* buf, size_t n, off_t off) {
   WrapPlan& p = plan();
   if (!p.active || fd != p.fd) return __real_pread(fd, buf, n, off);
+  if (p.fail_now()) {
+    errno = p.fail_errno;
+    return -1;
+  }
   uint64_t lim = p.lim.next();
   size_t req = std::min<uint64_t>(n, lim);
   ssize_t r = __real_pread(fd, buf, req, off);
@@ -424,6 +432,333 @@ static void run_readx(const Case& c) {
   }
   static const char* names[] = {"readx", "preadx", "freadx", "read", "fread", "readx<T>", "readx-buf", "freadx-buf"};
   ctx().cls(cat("api:", names[api]));
+}
+
+// ---------------------------------------------------------------- a read that fails in the middle of a delivery
+//
+// The k-th read() / pread() / stream read callback fails with EINTR (a signal arrived before any data) or EIO; nothing is
+// consumed by the failed call, the source keeps delivering afterwards. The statement leaves two outcomes: the helper
+// throws, or it returns exactly the bytes the source handed out - no padding, nothing dropped, and for a read-to-end
+// helper nothing missing either (a failed read is not end of file).
+
+enum FaultApi : uint64_t { FA_READ_ALL_FD = 0,
+  FA_READ_ALL_FILE = 1,
+  FA_LOAD_FILE = 2,
+  FA_READX = 3,
+  FA_PREADX = 4,
+  FA_READ = 5,
+  FA_FREADX = 6,
+  FA_FREAD = 7,
+  FA_FGETS = 8,
+  FA_NUM = 9 };
+
+static const char* fault_api_name(uint64_t api) {
+  static const char* names[] = {"read-all-fd", "read-all-file", "load-file", "readx", "preadx", "read", "freadx", "fread", "fgets"};
+  return api < FA_NUM ? names[api] : "?";
+}
+
+// NUL-free text with a newline for every content byte in 1..nl (about nl/256 of the bytes)
+static std::string text_bytes(uint64_t seed, size_t size, uint64_t nl) {
+  std::string s = vg::expand(seed, size);
+  for (auto& ch : s) {
+    unsigned char u = static_cast<unsigned char>(ch);
+    if (u == 0) ch = 'x';
+    else if (u <= nl) ch = '\n';
+    else if (ch == '\n') ch = 'y';
+  }
+  return s;
+}
+
+static std::string model_line(const std::string& content, size_t pos) {
+  if (pos >= content.size()) return std::string();
+  size_t nl = content.find('\n', pos);
+  return nl == std::string::npos ? content.substr(pos) : content.substr(pos, nl + 1 - pos);
+}
+
+// verdict on a read-to-end call made while the plan held failing reads
+static void check_to_end_after_fault(const std::string& nm, bool threw, const std::string& got, const std::string& content, uint64_t delivered, uint64_t faulted, int err, bool strict) {
+  if (threw) {
+    VCHECK(faulted > 0, nm + "-spurious-throw", nm, " threw although no read failed");
+    return;
+  }
+  VCHECK(got.size() <= delivered, nm + "-padded:after-failed-read", nm, " returned ", got.size(), " bytes although the source handed out only ", delivered, " (", faulted, " read(s) failed with errno ", err, "): ", first_diff(got, content.substr(0, delivered)));
+  VCHECK(content.compare(0, got.size(), got) == 0, nm + "-content:after-failed-read", nm, " after ", faulted, " failed read(s): ", first_diff(got, content.substr(0, delivered)));
+  VCHECK(got.size() == delivered, nm + "-dropped-bytes:after-failed-read", nm, " returned ", got.size(), " of the ", delivered, " bytes the source handed out");
+  if (strict || faulted == 0) {
+    VCHECK(got.size() == content.size(), nm + "-truncated:after-failed-read", nm, " returned normally with ", got.size(), " of the ", content.size(), " bytes before end of file; ", faulted, " read(s) failed with errno ", err, ", which is not end of file");
+  }
+}
+
+// n = [api, fd source kind, bufmode, size, seed, opsz, errno selector, L, failing call indices..., delivery...]
+static void run_read_fault(const Case& c) {
+  Reader r(c);
+  uint64_t api = r.next(), kind = r.next(), bufmode = r.next(), size = r.next(), seed = r.next(), opsz = r.next(), esel = r.next();
+  std::vector<uint64_t> faults = r.list();
+  Delivery d = r.delivery();
+  if (api >= FA_NUM) throw std::logic_error("case: unknown api");
+  if (size > (1 << 20) || opsz > (1 << 20) || faults.size() > 16) throw std::logic_error("case outside domain");
+  if (esel > 1) throw std::logic_error("case: unknown errno selector");
+  int err = esel == 0 ? EINTR : EIO;
+  bool seq = !(api == FA_READ_ALL_FD || api == FA_READ_ALL_FILE || api == FA_LOAD_FILE);
+  if (seq && api != FA_FGETS && (opsz == 0 || size / opsz > 4000)) throw std::logic_error("case: too many operations");
+  std::string content = api == FA_FGETS ? text_bytes(seed, size, 3) : vg::expand(seed, size);
+  std::string nm = fault_api_name(api);
+  uint64_t faulted = 0, calls = 0, trunc = 0;
+  bool any_throw = false, any_ok = false;
+  size_t max_ops = (opsz ? size / opsz : size) + faults.size() + 4;
+
+  if (api == FA_READ_ALL_FD) {
+    FdSource src(kind, content, d);
+    plan().set_faults(faults, err);
+    std::string got;
+    try {
+      got = phosg::read_all(src.fd);
+      any_ok = true;
+    } catch (const phosg::io_error&) {
+      any_throw = true;
+    }
+    faulted = plan().faulted, calls = plan().calls, trunc = plan().truncated;
+    check_to_end_after_fault(nm, any_throw, got, content, plan().delivered, faulted, err, true);
+  } else if (api == FA_READ_ALL_FILE) {
+    FileSource src(F_COOKIE, bufmode, content, d);
+    src.cookie.fail_calls = faults;
+    src.cookie.fail_errno = err;
+    std::string got;
+    try {
+      got = phosg::read_all(src.f);
+      any_ok = true;
+    } catch (const phosg::io_error&) {
+      any_throw = true;
+    }
+    faulted = src.cookie.faulted, calls = src.cookie.calls, trunc = src.cookie.truncated;
+    // Reported, not asserted: read_all(FILE*) cannot tell a failed stream read from end of file (its `bytes_read < 0` test
+    // is applied to fread's unsigned count), so after a failed read it returns the prefix delivered so far without
+    // throwing. Whether that is the "silently truncated result" of the statement is for the orchestrator to decide; until
+    // then only the clauses "nothing padded, nothing dropped, no spurious throw" are applied to this helper.
+    bool prefix_only = !any_throw && faulted > 0 && got.size() < content.size();
+    if (prefix_only) ctx().exclude("read_all(FILE*) returns the delivered prefix without throwing after a failed stream read: completeness clause not applied (reported as a possible defect)");
+    check_to_end_after_fault(nm, any_throw, got, content, src.cookie.pos, faulted, err, false);
+  } else if (api == FA_LOAD_FILE) {
+    std::string path = scratch() + "/fault.bin";
+    write_file_raw(path, content);
+    std::set<int> before = open_fds();
+    struct Arm {
+      ~Arm() { plan().disarm(); }
+    } arm;
+    int probe = ::open("/dev/null", O_RDONLY);
+    __real_close(probe);
+    plan().arm(probe, d.limiter());
+    plan().set_faults(faults, err);
+    std::string got;
+    try {
+      got = phosg::load_file(path);
+      any_ok = true;
+    } catch (const std::runtime_error&) {
+      any_throw = true;
+    }
+    faulted = plan().faulted, calls = plan().calls, trunc = plan().truncated;
+    uint64_t delivered = plan().delivered;
+    plan().disarm();
+    VCHECK(calls >= 1, "harness-plan-not-applied", "the read plan did not see load_file's read (fd guess ", probe, ")");
+    if (any_throw) {
+      VCHECK(faulted > 0 || trunc > 0, nm + "-spurious-throw", "load_file threw although read() delivered everything at once");
+    } else {
+      check_to_end_after_fault(nm, false, got, content, delivered, faulted, err, true);
+    }
+    VCHECK(open_fds() == before, "load-file-fd-leak:after-failed-read", "load_file changed the set of open descriptors (it ", any_throw ? "threw" : "returned", ")");
+    ::unlink(path.c_str());
+  } else if (api == FA_READX || api == FA_PREADX || api == FA_READ) {
+    FdSource src(api == FA_PREADX ? (uint64_t)FD_FILE : kind, content, d);
+    plan().set_faults(faults, err);
+    size_t pos = 0;
+    for (size_t it = 0; it < max_ops; it++) {
+      uint64_t sz = opsz;
+      uint64_t before = plan().delivered, fbefore = plan().faulted;
+      std::string got;
+      bool threw = false;
+      try {
+        if (api == FA_READX) got = phosg::readx(src.fd, sz);
+        else if (api == FA_PREADX) got = phosg::preadx(src.fd, sz, pos);
+        else got = phosg::read(src.fd, sz);
+      } catch (const phosg::io_error&) {
+        threw = true;
+      }
+      uint64_t dl = plan().delivered - before, fl = plan().faulted - fbefore;
+      if (threw) {
+        any_throw = true;
+        VCHECK(fl > 0 || (api != FA_READ && dl < sz), nm + "-spurious-throw", nm, "(", sz, ") at ", pos, " threw io_error although ", dl, " bytes were delivered and no read failed");
+        if (fl > 0 && dl == 0) continue; // nothing was consumed: the caller's retry must see the same bytes
+        break; // the position after a failed exact read is unspecified
+      }
+      if (api == FA_READ) {
+        VCHECK(got.size() == dl && got.size() <= sz, "read-size:after-failed-read", "read(fd,", sz, ") returned ", got.size(), " bytes but the descriptor delivered ", dl, " (", fl, " failed read(s))");
+        VCHECK(got == content.substr(pos, got.size()), "read-content:after-failed-read", "read(fd,", sz, ") at ", pos, ": ", first_diff(got, content.substr(pos, got.size())));
+        pos += got.size();
+        any_ok = true;
+        if (got.empty()) break; // end of file
+        continue;
+      }
+      std::string want = pos < content.size() ? content.substr(pos, sz) : std::string();
+      VCHECK(got.size() == sz, nm + "-size:after-failed-read", nm, "(", sz, ") returned ", got.size(), " bytes");
+      VCHECK(want.size() == sz && dl >= sz, nm + "-short-not-reported:after-failed-read", nm, "(", sz, ") at ", pos, " returned normally although only ", dl, " bytes were delivered (", fl, " failed read(s), source holds ", content.size(), ")");
+      VCHECK(got == want, nm + "-content:after-failed-read", nm, "(", sz, ") at ", pos, ": ", first_diff(got, want));
+      pos += sz;
+      any_ok = true;
+      if (pos >= size) break;
+    }
+    faulted = plan().faulted, calls = plan().calls, trunc = plan().truncated;
+  } else {
+    FileSource src(F_COOKIE, bufmode, content, d);
+    src.cookie.fail_calls = faults;
+    src.cookie.fail_errno = err;
+    size_t pos = 0;
+    if (api == FA_FGETS) max_ops = size + faults.size() + 4;
+    for (size_t it = 0; it < max_ops; it++) {
+      uint64_t sz = opsz;
+      size_t avail = content.size() - pos;
+      uint64_t fbefore = src.cookie.faulted;
+      std::string got;
+      bool threw = false;
+      try {
+        if (api == FA_FREADX) got = phosg::freadx(src.f, sz);
+        else if (api == FA_FREAD) got = phosg::fread(src.f, sz);
+        else got = phosg::fgets(src.f);
+      } catch (const phosg::io_error&) {
+        threw = true;
+      }
+      uint64_t fl = src.cookie.faulted - fbefore;
+      if (threw) {
+        any_throw = true;
+        VCHECK(fl > 0 || (api == FA_FREADX && sz > avail), nm + "-spurious-throw", nm, " at ", pos, " threw io_error although no read failed and ", avail, " bytes remain");
+        break; // bytes already taken into the stream buffer by the failed call are gone with it
+      }
+      if (api == FA_FREADX) {
+        VCHECK(sz <= avail, "freadx-short-not-reported:after-failed-read", "freadx(", sz, ") at ", pos, " returned normally although only ", avail, " bytes remain");
+        VCHECK(got == content.substr(pos, sz), "freadx-content:after-failed-read", "freadx(", sz, ") at ", pos, " (", fl, " failed read(s)): ", first_diff(got, content.substr(pos, sz)));
+        pos += sz;
+      } else if (api == FA_FREAD) {
+        std::string full = content.substr(pos, std::min<size_t>(sz, avail));
+        VCHECK(got.size() <= full.size(), "fread-padded:after-failed-read", "fread(f,", sz, ") at ", pos, " returned ", got.size(), " bytes, only ", full.size(), " can be delivered");
+        VCHECK(full.compare(0, got.size(), got) == 0, "fread-content:after-failed-read", "fread(f,", sz, ") at ", pos, ": ", first_diff(got, full));
+        if (fl == 0) VCHECK(got.size() == full.size(), "fread-truncated", "fread(f,", sz, ") at ", pos, " returned ", got.size(), " of ", full.size(), " bytes although no read failed");
+        pos += got.size();
+        if (got.empty() && fl == 0) break; // end of file
+      } else {
+        std::string line = model_line(content, pos);
+        VCHECK(got == line, got.size() < line.size() ? "fgets-line-truncated:after-failed-read" : "fgets-line-content:after-failed-read", "fgets at ", pos, " (", fl, " failed read(s) during the call) returned normally: ", first_diff(got, line));
+        pos += got.size();
+        if (got.empty()) break; // end of file
+      }
+      any_ok = true;
+      if (pos >= size && api == FA_FREADX) break;
+    }
+    faulted = src.cookie.faulted, calls = src.cookie.calls, trunc = src.cookie.truncated;
+  }
+  if (faulted > 0 && (calls >= 2 || any_ok)) ctx().nontrivial_case();
+  ctx().cls(cat("read_fault:", nm, faulted == 0 ? ":fault-not-reached" : any_throw ? (any_ok ? ":threw+ok" : ":threw") : ":returned"));
+  ctx().cls(err == EINTR ? "read_fault:EINTR" : "read_fault:EIO");
+  (void)trunc;
+}
+
+// ---------------------------------------------------------------- several helpers on one source, one after the other
+//
+// A source that has already been partly consumed (header through freadx/fgets/fgetcx, the rest through read_all, ...)
+// still delivers exactly its remaining bytes to the next helper: the concatenation of everything returned is the content.
+
+enum MixOp : uint64_t { M_FGETS = 0,
+  M_FREADX = 1,
+  M_FREAD = 2,
+  M_FGETCX = 3,
+  M_READ_ALL = 4,
+  M_NUM = 5 }; // fd family: M_FREADX = readx, M_FREAD = read, M_READ_ALL = read_all(fd); the others are not available
+
+// n = [family (0 FILE*, 1 fd), source kind, bufmode, size, seed, newline density, delivery..., L, (op, arg)...]
+static void run_mixed_reads(const Case& c) {
+  Reader r(c);
+  uint64_t family = r.next(), kind = r.next(), bufmode = r.next(), size = r.next(), seed = r.next(), nl = r.next();
+  if (family > 1 || size > (1 << 20) || nl > 200) throw std::logic_error("case outside domain");
+  Delivery d = r.delivery();
+  std::vector<uint64_t> ops = r.list();
+  if (ops.size() > 64 || ops.size() % 2) throw std::logic_error("case: bad op list");
+  std::string content = text_bytes(seed, size, nl);
+  size_t pos = 0;
+  std::set<uint64_t> consumers; // helpers that actually took bytes
+  bool read_all_after_use = false, shortreads = false;
+  static const char* opnames[] = {"fgets", "freadx", "fread", "fgetcx", "read_all"};
+  auto run_ops = [&](FILE* f, int fd) {
+    for (size_t i = 0; i + 1 < ops.size(); i += 2) {
+      uint64_t op = ops[i], arg = ops[i + 1];
+      if (op >= M_NUM || arg > (1 << 20)) throw std::logic_error("case: unknown op");
+      if (!f && (op == M_FGETS || op == M_FGETCX)) throw std::logic_error("case: stream-only op on a descriptor");
+      size_t avail = content.size() - pos;
+      std::string got;
+      bool threw = false;
+      uint64_t before = plan().delivered;
+      try {
+        switch (op) {
+          case M_FGETS: got = phosg::fgets(f); break;
+          case M_FREADX: got = f ? phosg::freadx(f, arg) : phosg::readx(fd, arg); break;
+          case M_FREAD: got = f ? phosg::fread(f, arg) : phosg::read(fd, arg); break;
+          case M_FGETCX: got.assign(1, static_cast<char>(phosg::fgetcx(f))); break;
+          case M_READ_ALL: got = f ? phosg::read_all(f) : phosg::read_all(fd); break;
+        }
+      } catch (const phosg::io_error&) {
+        threw = true;
+      }
+      std::string ctxt = cat(f ? "" : "fd ", opnames[op], op == M_FREADX || op == M_FREAD ? cat("(", arg, ")") : std::string(), " as operation ", i / 2, " at offset ", pos, " of ", content.size());
+      std::string want;
+      switch (op) {
+        case M_FGETS: want = model_line(content, pos); break;
+        case M_FREADX:
+          if (f) {
+            VCHECK(threw == (arg > avail), threw ? "mixed-freadx-spurious-throw" : "mixed-freadx-short-not-reported", ctxt, ": ", threw ? "threw" : "returned", " with ", avail, " bytes before end of stream");
+          } else {
+            uint64_t dl = plan().delivered - before;
+            if (threw) VCHECK(dl < arg, "mixed-readx-spurious-throw", ctxt, ": threw although ", dl, " bytes were delivered");
+            else VCHECK(dl >= arg && arg <= avail, "mixed-readx-short-not-reported", ctxt, ": returned although ", dl, " bytes were delivered");
+          }
+          if (threw) return; // position unspecified from here on
+          want = content.substr(pos, arg);
+          break;
+        case M_FREAD:
+          if (f) want = content.substr(pos, std::min<size_t>(arg, avail));
+          else {
+            uint64_t dl = plan().delivered - before;
+            VCHECK(!threw && got.size() == dl && dl <= arg, "mixed-read-size", ctxt, ": returned ", got.size(), " bytes, the descriptor delivered ", dl);
+            want = content.substr(pos, got.size());
+          }
+          break;
+        case M_FGETCX:
+          VCHECK(threw == (avail == 0), threw ? "mixed-fgetcx-spurious-throw" : "mixed-fgetcx-eof-not-reported", ctxt, ": ", threw ? "threw" : "returned");
+          if (threw) continue;
+          want = content.substr(pos, 1);
+          break;
+        case M_READ_ALL: want = content.substr(pos); break;
+      }
+      VCHECK(!threw, cat("mixed-", opnames[op], "-threw"), ctxt, ": threw io_error without an I/O error");
+      bool used = pos > 0;
+      std::string tag = op == M_READ_ALL ? (f ? "read-all-file" : "read-all-fd") : cat("mixed-", opnames[op]);
+      std::string clause = tag + (got.size() < want.size() ? "-truncated" : "-content") + (used ? ":after-earlier-reads" : "");
+      VCHECK(got == want, clause, ctxt, ": ", first_diff(got, want));
+      if (!got.empty()) consumers.insert(op);
+      if (op == M_READ_ALL && used && !want.empty()) read_all_after_use = true;
+      pos += got.size();
+    }
+  };
+  if (family == 0) {
+    FileSource src(kind, bufmode, content, d);
+    run_ops(src.f, -1);
+    shortreads = src.cookie.truncated > 0 || (kind == F_PIPE && !d.wchunks.empty());
+    ctx().cls(cat("mixed:", kind == F_COOKIE ? "FILE-cookie" : kind == F_MEM ? "FILE-mem" : kind == F_PIPE ? "FILE-pipe" : "FILE-file"));
+  } else {
+    FdSource src(kind, content, d);
+    run_ops(nullptr, src.fd);
+    shortreads = plan().truncated > 0 || (kind == FD_PIPE && !d.wchunks.empty());
+    ctx().cls(kind == FD_FILE ? "mixed:fd-file" : "mixed:fd-pipe");
+  }
+  if (consumers.size() >= 2 || read_all_after_use) ctx().nontrivial_case();
+  if (read_all_after_use) ctx().cls("mixed:read_all-on-a-used-source");
+  ctx().cls(shortreads ? "delivery:short-reads" : "delivery:whole");
 }
 
 // ---------------------------------------------------------------- list_directory
@@ -1096,6 +1431,88 @@ static Case gen_readx() {
   return c;
 }
 
+static Case gen_read_fault() {
+  Case c("read_fault");
+  uint64_t api = vg::below(FA_NUM);
+  bool stream = (api == FA_READ_ALL_FILE || api == FA_FREADX || api == FA_FREAD || api == FA_FGETS);
+  uint64_t kind = (stream || api == FA_LOAD_FILE || api == FA_PREADX) ? (uint64_t)FD_FILE : vg::below(2);
+  size_t size = api == FA_FGETS ? vg::scaled(6000) : gen_size(70000);
+  uint64_t bufmode = stream ? vg::pick<uint64_t>({0, 0, 1, 2, 3}) : 0;
+  if (bufmode == 1 && size > 3000) bufmode = 0;
+  uint64_t opsz = vg::pick<uint64_t>({1, 7, 255, 256, 4096, size, size / 2 + 1, 1 + vg::below(size + 1)});
+  opsz = std::max<uint64_t>(opsz, size / 1500 + 1);
+  Delivery d;
+  if (!stream && kind == FD_PIPE && vg::chance(1, 2)) gen_writer_plan(d, size);
+  if (vg::chance(2, 3)) gen_reader_plan(d, size);
+  std::vector<uint64_t> faults;
+  uint64_t nf = vg::pick<uint64_t>({1, 1, 1, 2, 3});
+  for (uint64_t i = 0; i < nf; i++) faults.push_back(vg::below(vg::pick<uint64_t>({1, 2, 4, 6, 40})));
+  c.N(api).N(kind).N(bufmode).N(size).N(vg::u64()).N(opsz).N(vg::chance(3, 4) ? 0 : 1);
+  c.N(faults.size());
+  for (auto v : faults) c.N(v);
+  d.put(c);
+  return c;
+}
+
+static uint64_t gen_mixed_arg(size_t left) {
+  switch (vg::below(6)) {
+    case 0: return vg::below(9);
+    case 1: return 250 + vg::below(12);
+    case 2: return 4090 + vg::below(12);
+    case 3: return left;
+    case 4: return left + 1 + vg::below(3);
+    default: return vg::below(left + 1);
+  }
+}
+
+static Case gen_mixed_reads() {
+  Case c("mixed_reads");
+  uint64_t family = vg::chance(3, 4) ? 0 : 1;
+  uint64_t kind = family == 0 ? vg::pick<uint64_t>({F_FILE, F_FILE, F_FILE, F_COOKIE, F_MEM, F_PIPE}) : vg::below(2);
+  size_t size;
+  switch (vg::below(4)) {
+    case 0: size = vg::pick<uint64_t>({4095, 4096, 4097, 8191, 8192, 8193, 12288}) + vg::below(2); break; // around the stdio buffer size
+    case 1: size = vg::below(5000); break;
+    default: size = gen_size(70000); break;
+  }
+  uint64_t bufmode = family == 0 ? vg::pick<uint64_t>({0, 0, 0, 1, 2, 3}) : 0;
+  if (bufmode == 1 && size > 3000) bufmode = 0;
+  uint64_t nl = vg::pick<uint64_t>({0, 1, 4, 40});
+  Delivery d;
+  bool pipe = (family == 0 && kind == F_PIPE) || (family == 1 && kind == FD_PIPE);
+  if (pipe && vg::chance(1, 2)) gen_writer_plan(d, size);
+  if ((family == 0 && kind == F_COOKIE) || (family == 1 && vg::chance(1, 3))) gen_reader_plan(d, size);
+  c.N(family).N(kind).N(bufmode).N(size).N(vg::u64()).N(nl);
+  d.put(c);
+  std::vector<uint64_t> ops;
+  uint64_t nbefore = vg::below(5), nafter = vg::chance(1, 3) ? 1 + vg::below(2) : 0;
+  bool with_read_all = vg::chance(4, 5);
+  size_t left = size; // upper estimate of what remains (fgets lines are not tracked)
+  uint64_t fgets_budget = nl == 0 ? 1 : 6; // a line may be the whole content: keep unbuffered/byte-wise work bounded
+  auto one = [&]() {
+    uint64_t op = family == 0 ? vg::pick<uint64_t>({M_FGETS, M_FGETS, M_FREADX, M_FREADX, M_FREAD, M_FGETCX}) : vg::pick<uint64_t>({M_FREADX, M_FREAD});
+    if (op == M_FGETS) {
+      if (fgets_budget == 0) op = M_FGETCX;
+      else fgets_budget--;
+    }
+    uint64_t arg = (op == M_FREADX || op == M_FREAD) ? gen_mixed_arg(left) : 0;
+    if (op == M_FREADX || op == M_FREAD) left -= std::min<size_t>(left, arg);
+    if (op == M_FGETCX && left) left--;
+    ops.push_back(op);
+    ops.push_back(arg);
+  };
+  for (uint64_t i = 0; i < nbefore; i++) one();
+  if (with_read_all) {
+    ops.push_back(M_READ_ALL);
+    ops.push_back(0);
+    left = 0;
+  }
+  for (uint64_t i = 0; i < nafter; i++) one();
+  c.N(ops.size());
+  for (auto v : ops) c.N(v);
+  return c;
+}
+
 static std::string gen_name() {
   switch (vg::below(8)) {
     case 0: return vg::pick<std::string>({".a", "..b", "...", ".hidden", " ", "-", "-rf", "~", "a b", "\n", "*", "\\", "\xff\xfe", "\x01", "..."});
@@ -1386,6 +1803,97 @@ static void enum_readx(Enum& e) {
   e.complete("readx/preadx/freadx/read/fread of the whole source under every composition of totals <= 10; exact and one-past-the-end requests at sizes 0..3, 250..260, 16380..16390, 32764..32772");
 }
 
+static void enum_read_fault(Enum& e) {
+  uint64_t idx = 0;
+  // every composition of every total <= 6 as the short-read plan x the failing read at every call index (and one past the last)
+  for (uint64_t total = 0; total <= 6 && !e.stop; total++) {
+    for_compositions(total, [&](const std::vector<uint64_t>& parts) {
+      if (!e.mine(idx++)) return;
+      Delivery d;
+      d.list = parts;
+      for (uint64_t k = 0; k <= parts.size() + 1; k++) {
+        for (uint64_t api = 0; api < FA_NUM; api++) {
+          for (uint64_t kind : {FD_FILE, FD_PIPE}) {
+            bool fd_kinds = (api == FA_READ_ALL_FD || api == FA_READX || api == FA_READ);
+            if (kind == FD_PIPE && !fd_kinds) continue;
+            bool seq = !(api == FA_READ_ALL_FD || api == FA_READ_ALL_FILE || api == FA_LOAD_FILE || api == FA_FGETS);
+            std::vector<uint64_t> opszs{total ? total : 1}; // the whole source in one operation
+            if (seq && total > 1) opszs.push_back(1); // byte by byte (the operation size means nothing to the read-to-end helpers)
+            for (uint64_t opsz : opszs) {
+              Case c("read_fault");
+              c.N(api).N(kind).N(0).N(total).N(total * 131 + parts.size()).N(opsz).N((k + total) % 4 == 3 ? 1 : 0);
+              c.N(1).N(k);
+              d.put(c);
+              e.exec(c);
+            }
+          }
+        }
+      }
+    });
+  }
+  // two failing reads in a row / apart, block-boundary sizes, read-to-end helpers
+  for (size_t s : boundary_sizes()) {
+    if (e.stop) break;
+    if (!e.mine(idx++)) continue;
+    for (uint64_t api : {FA_READ_ALL_FD, FA_READ_ALL_FILE, FA_LOAD_FILE}) {
+      for (uint64_t shape = 0; shape < 4; shape++) {
+        Delivery d;
+        if (shape == 1) d.list = {s / 2 + 1};
+        if (shape == 2) {
+          d.k = 4096;
+          d.seed = s;
+        }
+        std::vector<uint64_t> faults = shape == 3 ? std::vector<uint64_t>{0, 1} : shape == 2 ? std::vector<uint64_t>{1, 3} : std::vector<uint64_t>{shape};
+        Case c("read_fault");
+        c.N(api).N(FD_FILE).N(0).N(s).N(s * 5 + shape).N(1).N(0);
+        c.N(faults.size());
+        for (auto v : faults) c.N(v);
+        d.put(c);
+        e.exec(c);
+      }
+    }
+  }
+  e.complete("every helper that reads (read_all fd/FILE*, load_file, readx, preadx, read, freadx, fread, fgets) under every composition of every total <= 6 with the failing read (EINTR, every fourth EIO) at every call index; read-to-end helpers at sizes 0..3, 250..260, 16380..16390, 32764..32772 with one or two failing reads");
+}
+
+static void enum_mixed_reads(Enum& e) {
+  uint64_t idx = 0;
+  std::vector<size_t> sizes;
+  for (size_t s = 0; s <= 3; s++) sizes.push_back(s);
+  for (size_t base : {256, 4096, 8192, 16384})
+    for (size_t s = base - 2; s <= base + 2; s++) sizes.push_back(s);
+  sizes.push_back(40000);
+  for (size_t s : sizes) {
+    if (e.stop) break;
+    if (!e.mine(idx++)) continue;
+    for (uint64_t kind : {F_FILE, F_MEM, F_COOKIE})
+      for (uint64_t bufmode : {0, 3})
+        for (uint64_t first = 0; first < 7; first++) {
+          // one consuming call, then read_all, then a line read at end of stream
+          uint64_t op = first == 0 ? M_FGETS : first == 1 || first == 2 || first == 6 ? M_FREADX : first == 3 || first == 4 ? M_FREAD : M_FGETCX;
+          uint64_t arg = first == 1 || first == 3 ? 1 : first == 2 ? s / 2 : first == 4 ? s : first == 6 ? (s ? s - 1 : 0) : 0;
+          Case c("mixed_reads");
+          c.N(0).N(kind).N(bufmode).N(s).N(s * 17 + first).N(first % 2 ? 1 : 40);
+          Delivery d;
+          if (kind == F_COOKIE) d.list = {s / 3 + 1};
+          d.put(c);
+          c.N(6).N(op).N(arg).N(M_READ_ALL).N(0).N(M_FGETS).N(0);
+          e.exec(c);
+        }
+    for (uint64_t kind : {FD_FILE, FD_PIPE})
+      for (uint64_t first : {M_FREADX, M_FREAD})
+        for (uint64_t arg : {(uint64_t)1, (uint64_t)s / 2}) {
+          Case c("mixed_reads");
+          c.N(1).N(kind).N(0).N(s).N(s * 19 + arg).N(0);
+          Delivery d;
+          d.put(c);
+          c.N(4).N(first).N(arg).N(M_READ_ALL).N(0);
+          e.exec(c);
+        }
+  }
+  e.complete("one consuming call (fgets / freadx 1, half, all but one / fread 1, all / fgetcx) then read_all then fgets at end of stream, on fopen, fmemopen and cookie streams with the default and a 256-byte buffer, sizes 0..3, 254..258, 4094..4098, 8190..8194, 16382..16386, 40000; readx/read then read_all on file and pipe descriptors");
+}
+
 static void enum_path(Enum& e) {
   uint64_t idx = 0;
   size_t maxlen = e.thorough() ? 9 : 8;
@@ -1464,6 +1972,8 @@ int main(int argc, char** argv) {
   checks.push_back({"read_all", run_read_all, gen_read_all, 8000, 80000, 100, enum_read_all});
   checks.push_back({"fgets", run_fgets, gen_fgets, 8000, 80000, 100, enum_fgets});
   checks.push_back({"readx", run_readx, gen_readx, 8000, 80000, 100, enum_readx});
+  checks.push_back({"read_fault", run_read_fault, gen_read_fault, 6000, 60000, 100, enum_read_fault});
+  checks.push_back({"mixed_reads", run_mixed_reads, gen_mixed_reads, 6000, 60000, 100, enum_mixed_reads});
   checks.push_back({"list_dir", run_list_dir, gen_list_dir, 1500, 10000, 100, nullptr});
   checks.push_back({"unlink", run_unlink, gen_unlink, 4000, 30000, 100, enum_unlink});
   checks.push_back({"path", run_path, gen_path, 60000, 300000, 100, enum_path});
